@@ -11,6 +11,7 @@ def run(chk, tier):
     g = K.run(tier)
     O.health(chk, g)
     O.c06(chk, g)
+    gen_shape(chk, tier)
     extra(chk, g, tier)
     chk.note("grid", {"cells": g["ncells"], "abstract_paths": sum(c["npaths"] for c in g["res"].values()),
                       "deduplicated_states": sum(c.get("ndedup", 0) for c in g["res"].values()),
@@ -22,8 +23,59 @@ def run(chk, tier):
     chk.trusted_base = ["clang 14 front end", "LLVM sroa/mem2reg", "LLVM ConstantRange/KnownBits", "src/xai*.{cc,h}", "digest contracts in vlib/crypt_grid.py", "vlib/crypt_oracle.py"]
     chk.assumptions += ["phrase and setting are NUL-terminated strings; reads of these two strings carry no obligation (over-reads of caller strings are NOT decided)",
                         "the setting passed check_badsalt_chars (C05 R-FILTER-SPEC / R-FILTER-DOM establish that summary); the digest primitives obey their contracts (read (ptr,len), write result and context of their declared size)",
-                        "crypt paths of yescrypt ($y$) and gost-yescrypt ($gy$) are NOT covered: %s" % K.UNCOVERED,
+                        "the crypt path of gost-yescrypt ($gy$) is NOT covered: %s; for yescrypt and scrypt the shape of results is decided for generated settings (X-GEN-SHAPE) and otherwise only bounded (X-LEN, X-PREFIX)" % K.UNCOVERED,
                         "uninitialised reads of scratch and signed-overflow UB inside digest rounds are NOT decided"]
+
+
+def gen_shape(chk, tier):
+    """settings that crypt_gensalt can produce have exact lengths, so the result is known position by position:
+    <setting, possibly with its trailing '$' normalised>[$]<N digest characters>NUL"""
+    from .. import compose_grid as CG, xai
+    chk.rule("X-GEN-SHAPE", "hashing with a generated setting yields exactly: the setting, a '$' where the format has one, the method's fixed number of digest characters from its alphabet, NUL")
+    cg = CG.run(tier)
+    per = {}
+    for cid, c in sorted(cg["res"].items()):
+        mt = cg["meta"][cid]
+        base = "K" + (mt["row"]["prefix"] or "des") if mt["row"]["prefix"] != "_" else "K_"
+        if mt["row"]["prefix"] == "":
+            base = "Kdes"
+        sp = O.SHAPE.get(base)
+        if sp is None:
+            raise AnalysisBroken("no documented shape for %s (%s)" % (mt["method"], base))
+        for p in c["paths"]:
+            if not p["ret"].startswith("ptr:") or any(a["kind"] in O.HARD for a in p["alarms"]):
+                continue
+            ok, ln, chars = O.terminated(p)
+            shown = xai.show(chars)[:150]
+            where = {"cell": cid, "result": shown}
+            if not ok or not (len(p.get("out", [])) > ln and p["out"][ln][0] == frozenset([0])):
+                chk.fail("X-GEN-SHAPE", "%s|term" % mt["method"], "%s: result %s has no definite terminator" % (mt["method"], shown), "lib/", where)
+                continue
+            if sp["digest"] is None:      # bcrypt: fixed total length and positional alphabet
+                al = O.ALPHA[base]
+                bad = ln != sp["max"] or any(not (s_ <= al[i]) for i, (s_, pr) in enumerate(chars))
+            else:
+                n = 0
+                while n < ln and chars[ln - 1 - n][1] == O.P_DIGEST:
+                    n += 1
+                want = n if sp["digest"] == "11k" and n % 11 == 0 and 11 <= n <= 176 else sp["digest"]
+                dal = O.HEX if base == "K$3$" else K.A64
+                bad = n != want or any(not (s_ <= dal) for s_, pr in chars[ln - n:]) or ln - n < len(mt["row"]["prefix"])
+                # what precedes the digest is the generated setting (X-ECHO of C10 compares it cell by cell); here: its length
+                pat = list(mt["pattern"])
+                while pat and pat[-1] == frozenset([ord("$")]):
+                    pat.pop()
+                head = ln - n
+                if not bad and not (len(pat) <= head <= len(mt["pattern"]) + 2):
+                    bad = True
+            if bad:
+                chk.fail("X-GEN-SHAPE", "%s|len%d" % (mt["method"], len(mt["pattern"])), "%s: hashing with the generated setting %s gives %s, not <setting>[$]<%s digest characters>" % (mt["method"], xai.show([(x, 0) for x in mt["pattern"]])[:80], shown, sp["digest"] or "fixed 60-char layout"), "lib/", where)
+            else:
+                chk.count("X-GEN-SHAPE", 1, [mt["method"]])
+                per[mt["method"]] = per.get(mt["method"], 0) + 1
+    if len(per) < 8:
+        raise AnalysisBroken("X-GEN-SHAPE decided only %d methods" % len(per))
+    chk.note("generated_settings_decided", per)
 
 
 def extra(chk, g, tier):
